@@ -55,7 +55,9 @@ def gen_value(rng):
     return {"t": "fieldref", "f2": rng.choice(FIELDS), "sw": rng.random() < 0.5, "ew": rng.random() < 0.5}
 
 
-TEST_ATTRS = [{}, {"str_quote_pattern_negation": True}, {"add_escaped": "\\\"=", "filter_chars": "\n"}, {"re_flag_prefix": True}]
+TEST_ATTRS = [{}, {"str_quote_pattern_negation": True}, {"add_escaped": "\\\"=", "filter_chars": "\n"}, {"re_flag_prefix": True},
+              # a native CIDR template that uses every field the renderer offers
+              {"cidr_expression": "cidrmatch({field}, {value}, {network}/{prefixlen}, {netmask})"}]
 
 
 def gen_leaf(tier, rng):
@@ -74,6 +76,9 @@ def gen_leaf(tier, rng):
             for q in (None, [".*\\s", False], ["^\\w*$", True]):
                 out.append({"cfg": {"family": "vb", "k": dict(base, qpat=q)}, "field": "f", "value": {"t": "str", "s": s, "cased": cased}})
         out.append({"cfg": {"family": "vb", "k": base}, "field": None, "value": {"t": "str", "s": s, "cased": False}})
+    for cidr in CIDRS:
+        out.append({"cfg": {"family": "test", "attrs": TEST_ATTRS[-1]}, "field": "f", "value": {"t": "cidr", "cidr": cidr}})
+        out.append({"cfg": {"family": "vb", "k": base}, "field": "f", "value": {"t": "cidr", "cidr": cidr}})
     for rx in REGEXES:
         out.append({"cfg": {"family": "vb", "k": base}, "field": "a b", "value": {"t": "re", "rx": rx, "flags": ["i", "s"]}})
         out.append({"cfg": {"family": "vb", "k": base}, "field": None, "value": {"t": "re", "rx": rx, "flags": []}})
